@@ -67,6 +67,12 @@ CHECKS = {
     "C18": ("exploration", "result-set and no-exception monitor over enumerated arrival interleavings of duplicate / malformed discovery replies on a simulated UDP network; event-loop exception handler watched",
             "Every distinct interleaving of <= 6 datagrams from <= 4 hosts, 14 bad-reply classes alone / next to good hosts / from every subset of hosts, random larger schedules.",
             "Each host is consistently good or bad within a run; XML replies carrying a port attribute are outside the statement's bad classes.", "DESIGN.md section 2 C18"),
+    "C19": ("exploration", "model cloud server (httpx.MockTransport through get_async_client) verifying every request on the wire; returned-credential and retry/error-mapping oracles; end-to-end discovery + V3 authentication on the simulated network",
+            "Match position x near-miss ids x list sizes, all fault scripts of length <= 3 per request stage over 6 fault kinds, credentials over printable ASCII incl. + & = % space @, built-in regional credentials, both udpid byte orders end to end.",
+            "No offline ground truth of the real server: the model is an independent second implementation of the documented algorithm, checked on the wire form.", "DESIGN.md section 2 C19"),
+    "C20": ("exploration", "in-process runs of msmart.cli.main() on the virtual loop against a simulated device: final device state vs reported state overlaid with a README-derived interpretation; exit status and zero-I/O oracle for invalid input",
+            "Every writable setting, every enumeration member by name in three letter cases and by value, raw fan integers, int/float numbers, boolean spellings, display toggle 2x2, pairs and tuples of settings, V2 and V3 (--id/--token/--key), with/without --capabilities, and an invalid-input catalogue.",
+            "Only documented spellings are judged; an uncaught exception counts as a non-zero exit.", "DESIGN.md section 2 C20"),
 }
 
 NOT_YET = "check not built yet in this round (planned in DESIGN.md section 2)"
